@@ -60,6 +60,17 @@ func c02Defaults(p *Prog, r *Report, rule string) {
 					}
 					good = lvl == rc && id
 					detail = fmt.Sprintf("for the main id the registry answers level %s (ReadCommitted is %s), id passed=%v", lvl, rc, id)
+				} else if v, verr := env.Eval(rs.Results[0]); verr == nil && v != nil && v.Fields != nil {
+					// the answer built by a helper (mainTransaction()): the evaluated value decides
+					lvl, id := "", false
+					if l := v.Fields["IsoLevel"]; l != nil && l.C != nil {
+						lvl = l.C.ExactString()
+					}
+					if i := v.Fields["Id"]; i != nil && i.C != nil && i.C.Kind() == constant.String && constant.StringVal(i.C) == main {
+						id = true
+					}
+					good = lvl == rc && id
+					detail = fmt.Sprintf("for the main id the registry answers level %s (ReadCommitted is %s), id passed=%v", lvl, rc, id)
 				}
 			}
 		}
